@@ -210,6 +210,9 @@ def body_real_git(i0, r1, k1):
     from xv.oracles import storespec as SP
     c0, req1, tok1 = picks((i0, r1, k1), (RG_TOK, RG_REQS, RG_TOK[1:]))
     with untraced():
+        from xv.core import real_stack
+        if not real_stack("wsgi"):
+            return (True, "real-unavailable")
         import json
         import os
         import subprocess
